@@ -793,11 +793,11 @@ def run(tier):
             'struct.calcsize of the running interpreter equals that of the '
             'interpreter running ddSMT (standard sizes are forced by "=")',
         ])
-    rule_r1(chk, prog)
-    rule_r2(chk, prog)
-    rule_r3(chk, prog)
-    rule_r4(chk, prog)
-    rule_r5(chk, prog)
+    chk.guard(rule_r1, chk, prog)
+    chk.guard(rule_r2, chk, prog)
+    chk.guard(rule_r3, chk, prog)
+    chk.guard(rule_r4, chk, prog)
+    chk.guard(rule_r5, chk, prog)
     extra = None
     if tier == 'thorough':
         from .. import selftest
